@@ -37,6 +37,11 @@ inductive CopyEnd where
   | fail
   deriving DecidableEq, Repr, Inhabited
 
+/-- the buffer a `Read` of the source gets: `LimitedReader.Read` shortens it to its budget -/
+def capOf (buf : Nat) : Option Nat → Nat
+  | some n => min buf n
+  | none => buf
+
 /-- `io.CopyBuffer(dst, src, buf)`, `dst` without `ReadFrom`, `src = body` (`limit = none`) or
 `io.LimitReader(body, n)` (`limit = some n`): the `Write` calls, how the loop ended, the body
 reader afterwards. A `LimitedReader` whose budget is 0 returns `io.EOF` WITHOUT touching the
@@ -46,10 +51,7 @@ def ioCopy (buf : Nat) : Nat → Option Nat → Reader → List Bytes × CopyEnd
   | fuel + 1, limit, r =>
     if limit = some 0 then ([], .eof, r)
     else
-      let cap := match limit with
-        | some n => min buf n
-        | none => buf
-      let (chunk, e, r1) := r.read cap
+      let (chunk, e, r1) := r.read (capOf buf limit)
       let ws := if chunk.isEmpty then [] else [chunk]
       match e with
       | .none =>
@@ -109,26 +111,35 @@ inductive Outcome where
 /-- the `Write` calls `io.CopyBuffer` makes for the (possibly probed) body: `multiReader.WriteTo`
 copies the put-back byte first, then the rest. -/
 def copyAll (buf : Nat) (p : Plan) (limit : Option Nat) : List Bytes × CopyEnd × Reader :=
-  let pre := if p.pre.isEmpty then [] else [p.pre]
-  let (ws, o, r') := ioCopy buf (fuelFor p.reader) limit p.reader
-  (pre ++ ws, o, r')
+  let c := ioCopy buf (fuelFor p.reader) limit p.reader
+  ((if p.pre.isEmpty then [] else [p.pre]) ++ c.1, c.2.1, c.2.2)
+
+/-- the budget of the copy: `io.LimitReader(body, ContentLength)` for a known length -/
+def limitOf : Mode → Option Nat
+  | .known n => some n
+  | _ => none
+
+/-- how `writeBody` ends after the copy (`ws`: what was written, `o`: how the copy ended, `r1`: the
+body reader afterwards). Known length: a failed copy returns at once; otherwise
+`io.CopyBuffer(io.Discard, body, buf)` (`discard.ReadFrom`, 8 KiB buffers) drains the reader and the
+two counts are compared with `ContentLength`. -/
+def outcomeOf (mode : Mode) (ws : List Bytes) (o : CopyEnd) (r1 : Reader) : Outcome :=
+  match mode with
+  | .known n =>
+    if o = .fail then .readError
+    else
+      let d := ioCopy 8192 (fuelFor r1) none r1
+      if d.2.1 = .fail then .readError
+      else if ws.flatten.length + d.1.flatten.length = n then .ok else .bodyLength
+  | _ => if o = .eof then .ok else .readError
 
 /-- the body payload pieces handed to the framing layer (chunk writer / connection) and how
 `writeBody` ends -/
 def pieces (buf : Nat) (p : Plan) : List Bytes × Outcome :=
-  match p.mode with
-  | .noBody => ([], .ok)
-  | .chunked | .identity =>
-    let (ws, o, _) := copyAll buf p none
-    (ws, if o = .eof then .ok else .readError)
-  | .known n =>
-    let (ws, o, r1) := copyAll buf p (some n)
-    if o = .fail then (ws, .readError)
-    else
-      -- `io.CopyBuffer(io.Discard, body, buf)`: `discard.ReadFrom`, 8 KiB buffers
-      let (ds, o2, _) := ioCopy 8192 (fuelFor r1) none r1
-      if o2 = .fail then (ws, .readError)
-      else if ws.flatten.length + ds.flatten.length = n then (ws, .ok) else (ws, .bodyLength)
+  if p.mode = .noBody then ([], .ok)
+  else
+    let c := copyAll buf p (limitOf p.mode)
+    (c.1, outcomeOf p.mode c.1 c.2.1 c.2.2)
 
 /-- every byte `writeBody` writes to the connection (after the head) -/
 def writeBody (buf : Nat) (p : Plan) : Bytes × Outcome :=
